@@ -525,4 +525,59 @@ example : (serve table { cfgAll with pfx := ["api", "v1", "x"], custom := [] }
     = .denied := by decide
 
 
+/-! ## authenticator chains -/
+
+def declines : Inner → Bool
+  | .reject .rpcValue => true
+  | .rejectCtx .rpcValue _ => true
+  | _ => false
+
+/-- A chain lets a caller in only through a member that itself accepted, reached over members that
+all declined with a ValueError — never past a member's hard failure (PermissionError, AuthFailure,
+unavailable, other RpcErrors, plain errors), and never on the strength of a context that came with
+an error. -/
+theorem chain_accepts_only_past_declines : ∀ (ms : List Inner) (p : String), chainOutcome ms = .accept p →
+    ∃ pre post, ms = pre ++ .accept p :: post ∧ ∀ m ∈ pre, declines m = true
+  | [], p, h => by simp [chainOutcome] at h
+  | m :: rest, p, h => by
+    cases m with
+    | accept q =>
+      simp only [chainOutcome] at h
+      cases h
+      exact ⟨[], rest, rfl, by simp⟩
+    | acceptAnon => simp [chainOutcome] at h
+    | nilNil => simp [chainOutcome] at h
+    | reject k =>
+      cases k <;> simp only [chainOutcome] at h <;> try (cases h)
+      obtain ⟨pre, post, hms, hpre⟩ := chain_accepts_only_past_declines rest p h
+      exact ⟨.reject .rpcValue :: pre, post, by simp [hms], by
+        intro m hm; simp only [List.mem_cons] at hm; rcases hm with rfl | hm
+        · rfl
+        · exact hpre m hm⟩
+    | rejectCtx k q =>
+      cases k <;> simp only [chainOutcome] at h <;> try (cases h)
+      obtain ⟨pre, post, hms, hpre⟩ := chain_accepts_only_past_declines rest p h
+      exact ⟨.rejectCtx .rpcValue q :: pre, post, by simp [hms], by
+        intro m hm; simp only [List.mem_cons] at hm; rcases hm with rfl | hm
+        · rfl
+        · exact hpre m hm⟩
+
+/-- a refusing chain is a refusal for `reject_does_no_work` (it never hands back a context) -/
+theorem chain_outcome_never_carries_context (ms : List Inner) (k : Reject) (p : String) :
+    chainOutcome ms ≠ .rejectCtx k p := by
+  induction ms with
+  | nil => simp [chainOutcome]
+  | cons m rest ih =>
+    cases m with
+    | accept q => simp [chainOutcome]
+    | acceptAnon => simp [chainOutcome]
+    | nilNil => simp [chainOutcome]
+    | reject k' => cases k' <;> simp [chainOutcome, ih]
+    | rejectCtx k' q => cases k' <;> simp [chainOutcome, ih]
+
+example : chainOutcome [.reject .rpcValue, .reject .other, .accept "alice"] = .reject .other := by decide
+example : chainOutcome [.reject .rpcValue, .rejectCtx .rpcValue "x", .accept "alice"] = .accept "alice" := by decide
+example : chainOutcome [.rejectCtx .failure "mallory", .accept "alice"] = .reject .failure := by decide
+example : chainOutcome [.reject .rpcValue, .reject .rpcValue] = .reject .rpcValue := by decide
+
 end Vgi.Props.C22
